@@ -90,6 +90,76 @@ def obligations(chk, prop, which=('verdict', 'summarize', 'forward', 'tee', 'or'
             s.pop()
         return o
 
+    NATIVE = {'Tee': 'tee', 'Or': 'or', 'Normalize': 'normalize', 'AssertNormalized': 'assert_normalized', 'FailOnSkipped': 'fail_on_skipped',
+              'Repeat': 'repeat', 'Stats': 'discard_stats'}
+
+    def confirm_getter(o, st, meth):
+        """native replay: the real wrapper over stub writers whose getters return the counterexample's values"""
+        import os
+        from checks import replay
+        d = os.path.join(common.EVID, 'replay')
+        os.makedirs(d, exist_ok=True)
+        path = os.path.join(d, '%s-getter-%s-%s.script' % (prop, st, meth))
+        mv = o.model or {}
+
+        def val(name, default):
+            try:
+                return int(str(mv.get(name)), 0)
+            except (TypeError, ValueError):
+                return default
+        if st == 'Summarize':
+            # one scenario with three steps: passed, then failed with a retry left (retried), again: passed, skipped ...
+            lines = ['mode summarize', 'bg 0', 'own 3', 'ev run_started', 'ev parse_error', 'ev parse_error', 'ev feature_started',
+                     'ev started r=0/1', 'ev step 0 started r=0/1', 'ev step 0 passed r=0/1', 'ev step 1 started r=0/1', 'ev step 1 failed panic r=0/1',
+                     'ev step 2 started r=0/1', 'ev step 2 skipped r=0/1', 'ev finished r=0/1',
+                     'ev started r=1/0', 'ev step 0 started r=1/0', 'ev step 0 passed r=1/0', 'ev step 1 started r=1/0', 'ev step 1 passed r=1/0',
+                     'ev step 2 started r=1/0', 'ev step 2 failed panic r=1/0', 'ev hook after started r=1/0', 'ev hook after failed r=1/0', 'ev finished r=1/0']
+            res, out = replay.run_script('\n'.join(lines) + '\n', path)
+            chk.replays += 1
+            if res is None:
+                o.verdict = 'inconclusive'
+                o.detail += ' | native replay failed: %s' % out[-200:]
+                return
+            nat = {'passed_steps': ('g_passed', 'st_passed'), 'skipped_steps': ('g_skipped', 'st_skipped'), 'failed_steps': ('g_failed', 'st_failed'),
+                   'retried_steps': ('g_retried', 'st_retried'), 'parsing_errors': ('parsing_errors', None), 'hook_errors': ('failed_hooks', None)}[meth]
+            want = res[nat[1]] if nat[1] else {'parsing_errors': 2, 'hook_errors': 1}[meth]
+            if res[nat[0]] != want:
+                chk.replay_files.append(path)
+                o.replay = path
+                o.detail += ' | reproduced natively: the real Summarize::%s() returns %s, its counter is %s' % (meth, res[nat[0]], want)
+            else:
+                o.verdict = 'inconclusive'
+                o.detail += ' | not reproduced natively (the real getter returns its counter on the scripted stream)'
+            return
+        if st not in NATIVE:
+            o.verdict = 'inconclusive'
+            o.detail += ' | no native replay for %s' % st
+            return
+        lv = val('left.%s' % meth, val('inner.%s' % meth, 3))
+        rv = val('right.%s' % meth, 5)
+        res, out = replay.run_script('mode getters\nleft %s\nright %s\n' % (' '.join([str(lv)] * 6), ' '.join([str(rv)] * 6)), path)
+        chk.replays += 1
+        got = None
+        for ln in out.splitlines():
+            p_ = ln.split()
+            if len(p_) == 4 and p_[0] == 'GET' and p_[1] == NATIVE[st] and p_[2] == meth:
+                got = int(p_[3])
+        if res is None or got is None:
+            o.verdict = 'inconclusive'
+            o.detail += ' | native replay failed: %s' % out[-200:]
+            return
+        if meth == 'execution_has_failed':
+            want = 1 if (lv > 0 if st != 'Stats' else False) else 0
+        else:
+            want = max(lv, rv) if st == 'Tee' else lv + rv if st == 'Or' else 0 if st == 'Stats' else lv
+        if got != want:
+            chk.replay_files.append(path)
+            o.replay = path
+            o.detail += ' | reproduced natively: the real %s::%s() over stub writers (left %d, right %d) returns %d, specification %d' % (st, meth, lv, rv, got, want)
+        else:
+            o.verdict = 'inconclusive'
+            o.detail += ' | not reproduced natively (left %d, right %d -> %d as specified)' % (lv, rv, got)
+
     def fieldname(selfty, path):
         if not path:
             return 'self'
@@ -133,6 +203,8 @@ def obligations(chk, prop, which=('verdict', 'summarize', 'forward', 'tee', 'or'
             nm = 'self.%d' % ix.S[e[0]] + ('.%d' % ix.Stats[e[1]] if len(e) > 1 else '')
             want = z3.BitVec(nm, 64)
             decide(o, ex, [(pc, (r == want) if kind == 'ok' else z3.BoolVal(False)) for kind, r, pc, calls in res])
+            if o.verdict == 'violated':
+                confirm_getter(o, st, meth)
             obs.append(o)
             continue
         if st in ('Tee', 'Or'):
@@ -153,6 +225,8 @@ def obligations(chk, prop, which=('verdict', 'summarize', 'forward', 'tee', 'or'
                     else:
                         claims.append((pc, z3.Not(z3.BVAddNoOverflow(l, r_, False))))
             decide(o, ex, claims)
+            if o.verdict == 'violated':
+                confirm_getter(o, st, meth)
             obs.append(o)
             continue
         if 'forward' in which and st in ('Normalize', 'AssertNormalized', 'FailOnSkipped', 'Repeat', 'Arbitrary', 'Stats', 'Libtest', 'Basic'):
@@ -167,5 +241,7 @@ def obligations(chk, prop, which=('verdict', 'summarize', 'forward', 'tee', 'or'
             else:
                 want = z3.BitVec('inner.%s' % meth, 64)
             decide(o, ex, [(pc, (r == want) if kind == 'ok' else z3.BoolVal(False)) for kind, r, pc, calls in res])
+            if o.verdict == 'violated':
+                confirm_getter(o, st, meth)
             obs.append(o)
     return obs
